@@ -24,6 +24,16 @@ type I interface {
 }
 `
 
+// the testify harness also has a method whose only parameter is variadic over an interface type
+const c05ifaceTestify = `package p
+
+type I interface {
+	A(x int)
+	B(s string, v ...int) int
+	L(v ...any)
+}
+`
+
 // methods without parameters (empty call records)
 const c05ifaceNoParams = `package p
 
@@ -163,8 +173,8 @@ func C05(c *core.Ctx) error {
 		{"matryer", "matryer", core.M{"with-resets": true}, "c05/matryer_main.go.txt", false, nil, c05iface, "c05/iface_i.go.txt"},
 		{"matryer-stub", "matryer", core.M{"with-resets": true, "stub-impl": true}, "c05/matryer_main.go.txt", false, []string{"-stub"}, c05iface, "c05/iface_i.go.txt"},
 		{"matryer-noparams", "matryer", core.M{"with-resets": true}, "c05/matryer_main.go.txt", false, nil, c05ifaceNoParams, "c05/iface_j.go.txt"},
-		{"testify", "testify", core.M{}, "c05/testify_main.go.txt", true, nil, c05iface, ""},
-		{"testify-unroll", "testify", core.M{"unroll-variadic": true}, "c05/testify_main.go.txt", true, []string{"-unroll"}, c05iface, ""},
+		{"testify", "testify", core.M{}, "c05/testify_main.go.txt", true, nil, c05ifaceTestify, ""},
+		{"testify-unroll", "testify", core.M{"unroll-variadic": true}, "c05/testify_main.go.txt", true, []string{"-unroll"}, c05ifaceTestify, ""},
 	}
 	type runSpec struct {
 		v     c05Variant
